@@ -28,7 +28,7 @@ func VerifC12Flatten() {
 	// f1: the field under test
 	o1 := &descriptorpb.FieldOptions{}
 	flatten1 := verif.Bool("f1.flatten")
-	prefix1 := verif.StringIn("f1.prefix", 3, "a-z_")
+	prefix1 := verif.StringIn("f1.prefix", verif.L(3), "a-z_")
 	verif.SetExt(o1, http.E_Flatten, flatten1)
 	if prefix1 != "" {
 		verif.SetExt(o1, http.E_FlattenPrefix, prefix1)
@@ -43,7 +43,7 @@ func VerifC12Flatten() {
 		m.Oneofs = append(m.Oneofs, oo)
 	}
 	// plain sibling with symbolic JSON name (collision target)
-	otherJSON := verif.StringIn("other.json", 10, "a-zA-Z_")
+	otherJSON := verif.StringIn("other.json", verif.L(10), "a-zA-Z_")
 	verif.Assume(otherJSON != "" && otherJSON != "f1" && otherJSON != "f3")
 	verif.AddField(m, &verif.FieldDesc{FName: "other", FJSON: otherJSON, FKind: protoreflect.StringKind, FNumber: 2, FOpts: &descriptorpb.FieldOptions{}}, "Other")
 	// optional second flattened field (always a valid singular message field)
@@ -53,7 +53,7 @@ func VerifC12Flatten() {
 	if has3 {
 		o3 := &descriptorpb.FieldOptions{}
 		verif.SetExt(o3, http.E_Flatten, true)
-		prefix3 = verif.StringIn("f3.prefix", 3, "a-z_")
+		prefix3 = verif.StringIn("f3.prefix", verif.L(3), "a-z_")
 		if prefix3 != "" {
 			verif.SetExt(o3, http.E_FlattenPrefix, prefix3)
 		}
@@ -100,8 +100,8 @@ func VerifC12Flatten() {
 // or with fields outside the oneof.
 func VerifC12Oneof() {
 	m := verif.NewMessage("acme.v1", "Event")
-	idJSON := verif.StringIn("id.json", 6, "a-z")
-	optJSON := verif.StringIn("opt.json", 6, "a-z")
+	idJSON := verif.StringIn("id.json", verif.L(6), "a-z")
+	optJSON := verif.StringIn("opt.json", verif.L(6), "a-z")
 	verif.Assume(idJSON != "" && optJSON != "" && idJSON != optJSON)
 	verif.AddField(m, &verif.FieldDesc{FName: "id", FJSON: idJSON, FKind: protoreflect.StringKind, FNumber: 1, FOpts: &descriptorpb.FieldOptions{}}, "Id")
 	// a proto3-optional field outside the oneof (lives in its own synthetic oneof)
@@ -111,14 +111,14 @@ func VerifC12Oneof() {
 	dOpt.FOneof = fOpt.Oneof.Desc
 
 	text := verif.NewMessage("acme.v1", "Text")
-	bodyJSON := verif.StringIn("body.json", 6, "a-z")
+	bodyJSON := verif.StringIn("body.json", verif.L(6), "a-z")
 	verif.Assume(bodyJSON != "")
 	verif.AddField(text, &verif.FieldDesc{FName: "body", FJSON: bodyJSON, FKind: protoreflect.StringKind, FNumber: 1, FOpts: &descriptorpb.FieldOptions{}}, "Body")
 	image := verif.NewMessage("acme.v1", "Image")
 	verif.AddField(image, &verif.FieldDesc{FName: "url", FJSON: "url", FKind: protoreflect.StringKind, FNumber: 1, FOpts: &descriptorpb.FieldOptions{}}, "Url")
 
 	oOpts := &descriptorpb.OneofOptions{}
-	disc := verif.StringIn("discriminator", 6, "a-z")
+	disc := verif.StringIn("discriminator", verif.L(6), "a-z")
 	flatten := verif.Bool("oneof.flatten")
 	hasCfg := verif.Bool("oneof.hasConfig")
 	if hasCfg {
@@ -169,7 +169,7 @@ func VerifC12Oneof() {
 func VerifC12Enum() {
 	w := c12NewWorld()
 	m := verif.NewMessage("acme.v1", "M")
-	custom := verif.StringIn("enum.customValue", 3, "a-z")
+	custom := verif.StringIn("enum.customValue", verif.L(3), "a-z")
 	if custom != "" {
 		verif.SetExt(w.enum.Values[1].Desc.Options().(*descriptorpb.EnumValueOptions), http.E_EnumValue, custom)
 	}
